@@ -65,6 +65,8 @@ fn tuples(m: usize, maxlen: usize) -> Vec<Vec<usize>> {
         }
     }
     rec(0, m, &mut vec![], maxlen, &mut out);
+    // the empty request: nothing is reported (and the run is still made)
+    out.push(vec![]);
     out
 }
 
